@@ -96,13 +96,31 @@ class Obj:
 PTRBITS = 40
 
 
+def split_const(t):
+    """integer term -> (constant part, rest) for terms of the form c + rest"""
+    if isinstance(t, int):
+        return t, 0
+    if isinstance(t, Term) and t.op == 'iadd':
+        a, b = t.args
+        if isinstance(a, int):
+            return a, b
+        if isinstance(b, int):
+            return b, a
+    return 0, t
+
+
 def ptr_to_int(p):
     if isinstance(p.off, Term):
-        raise EngineError('ptrtoint of a symbolic pointer')
+        return imk('add', p.obj << PTRBITS, p.off)
     return (p.obj << PTRBITS) + p.off
 
 
 def int_to_ptr(v):
+    if isinstance(v, Term):
+        c, rest = split_const(v)
+        if c >> PTRBITS == 0:
+            raise EngineError('inttoptr of a symbolic integer that is not object base + offset')
+        return Ptr(c >> PTRBITS, imk('add', c & ((1 << PTRBITS) - 1), rest))
     return Ptr(v >> PTRBITS, v & ((1 << PTRBITS) - 1))
 
 
@@ -201,6 +219,13 @@ class Machine:
             while k + n <= b:
                 zero_cand.append(k)
                 k += n
+        # the offset is c0 + k * (one integer atom) in almost every case: only offsets congruent to c0 mod k can be hit
+        c0_, lin_ = int_linear(off)
+        if len(lin_) == 1:
+            k_ = abs(list(lin_.values())[0][0])
+            if k_ > 1:
+                cand = [x for x in cand if (x - c0_) % k_ == 0]
+                zero_cand = [x for x in zero_cand if (x - c0_) % k_ == 0]
         if len(cand) + len(zero_cand) > 4096:
             raise EngineError('symbolic-offset access into an object with more than 4096 candidate cells')
         if rw == 'R':
@@ -346,6 +371,22 @@ class Machine:
             raise EngineError('memcpy of symbolic size')
         if n == 0:
             return
+        if (isinstance(sp, Ptr) and isinstance(sp.off, Term)) or (isinstance(d, Ptr) and isinstance(d.off, Term)):
+            # block copy at a symbolic address (race mode): the ranges are logged, the data are havocked
+            if s.access_hook is None:
+                raise EngineError('memcpy at a symbolic address')
+            s.access_hook(s, 'R', sp, n, None)
+            s.access_hook(s, 'W', d, n, Fraction(0))
+            if not isinstance(d.off, Term):
+                do = s.obj(d, n)
+                s._clear(do, d.off, n)
+                for k in range(0, n - 7, 8):
+                    s.havoc_ctr = getattr(s, 'havoc_ctr', 0) + 1
+                    do.cells[d.off + k] = (sym(f'hvm{s.havoc_ctr}', 'R'), 8)
+            return
+        if s.access_hook is not None:
+            s.access_hook(s, 'R', sp, n, None)
+            s.access_hook(s, 'W', d, n, Fraction(0))
         so = s.obj(sp, n)
         do = s.obj(d, n)
         items = [(k, v) for k, v in so.cells.items() if k < sp.off + n and k + v[1] > sp.off]
@@ -993,6 +1034,29 @@ class Machine:
             raise EngineError(f'i1 arithmetic {op} on Boolean terms')
         a = s.sint(a, bits)
         b = s.sint(b, bits)
+        if op == 'sub' and bits == 64:
+            ca, ra = split_const(a)
+            cb, rb = split_const(b)
+            if (ca >> PTRBITS) and (ca >> PTRBITS) == (cb >> PTRBITS):
+                # difference of two addresses inside one object
+                return int_sub_normalised(a, b)
+        if op in ('and', 'or', 'xor') and (isinstance(a, int) or isinstance(b, int)):
+            cst, x = (a, b) if isinstance(a, int) else (b, a)
+            if cst >= 0 and not (op == 'and' and (cst & (cst + 1)) == 0):
+                # bit operation with a non-negative constant: only the constant's one-bits matter; b_i = (x div 2^i) mod 2
+                r = x if op != 'and' else 0
+                i = 0
+                while cst >> i:
+                    if (cst >> i) & 1:
+                        bi = i_emod(i_ediv(x, 1 << i), 2)
+                        if op == 'xor':
+                            r = imk('add', r, imk('mul', imk('sub', 1, imk('mul', 2, bi)), 1 << i))
+                        elif op == 'or':
+                            r = imk('add', r, imk('mul', imk('sub', 1, bi), 1 << i))
+                        else:
+                            r = imk('add', r, imk('mul', bi, 1 << i))
+                    i += 1
+                return r
         if op in ('add', 'sub', 'mul'):
             r = imk(op, a, b)
             s.int_ranges.append((r, bits, 'nsw' if 'nsw' in flags else ('nuw' if 'nuw' in flags else 'wrap'), s.stack[-1]))
